@@ -94,7 +94,7 @@ def classify(spec, problems, extents=None):
     k = kf.classify_plain(spec, problems) or mcommon.kf6(spec, problems)
     if k:
         return k
-    if any(t in spec.tags for t in ("S1", "S2", "S3", "S4", "S5", "S6", "S8", "S9", "S10", "S11")):
+    if any(t in spec.tags for t in ("S1", "S2", "S3", "S4", "S5", "S6", "S8", "S9", "S10", "S11", "S12")):
         k = c04.classify(spec, problems, extents)
         if k:
             return k
